@@ -38,6 +38,13 @@ def gen_class(rnd, i, exhaustive=None):
         src = ord_src(o if o is not None else ords[n])
         return [f"    @serialized" + (f"(order={src})" if src else ""), f"    def {n}(self) -> int:", "        return 1"]
     if inherit:
+        if rnd.random() < 0.5:
+            # a class-level order on the base class too: the subclass' own class-level entries override the inherited ones
+            base_over = [[n, rand_ord(n)] for n in rnd.sample(names[:kf], rnd.randint(1, kf))]
+            lines.append("@order({" + ", ".join(f"{n!r}: {ord_src(o) or 'order(0)'}" for n, o in base_over) + "})")
+            merged = {n: (o if o[0] != "none" else ["value", "0"]) for n, o in base_over}
+            merged.update({n: o for n, o in overriding})
+            overriding = [[n, o] for n, o in merged.items()]
         lines += ["@dataclass", f"class {cname}B:"] + [field_line(n) for n in names[:kf]]
         for n in names[nf:nf + km]: lines += method_lines(n)
         if km and rnd.random() < 0.5:
@@ -124,6 +131,7 @@ def run(prop, seed, budget, ctx):
                          "ords": ords, "overriding": ov})
     ms = model(reqs) if driver_ok else [{} for _ in reqs]
     failures, hist, distinct = [], collections.Counter(), set()
+    by_cls = {(c["cls"], c["view"]): c["real"] for c in meta}
     for m, c in zip(ms, meta):
         kinds = sorted({o[0] for o in c["ords"].values()} | ({"overriding"} if c["overriding"] else set()))
         hist["+".join(kinds)] += 1; hist["view:" + c["view"]] += 1
@@ -131,10 +139,17 @@ def run(prop, seed, budget, ctx):
         if nontrivial: distinct.add(hashlib.sha1(json.dumps([c["view"], c["elts"], c["ords"], c["overriding"]], sort_keys=True).encode()).hexdigest())
         c["model"] = m.get("order"); c["anchored"] = m.get("anchored")
         k_fail = driver_ok and m.get("order") != c["real"]
-        # P: every declared field appears exactly once (no loss, no duplicate), and the three views agree on the relative order
+        # P: every declared field appears exactly once (no loss, no duplicate); the views agree on the relative order of the
+        # elements they share; and the sequence is the permutation the (executable) specification `sortByOrder` gives
         p_fail = isinstance(c["real"], str) or sorted(c["real"]) != sorted(c["elts"])
+        why = ["field-lost-or-duplicated"] if p_fail else []
+        ser = by_cls.get((c["cls"], "serialize"))
+        if not p_fail and isinstance(ser, list) and [x for x in ser if x in c["real"]] != [x for x in c["real"] if x in ser]:
+            p_fail = True; why.append("views-disagree-on-the-order"); c["serialize_order"] = ser
+        if k_fail and not p_fail and m.get("anchored") is True:
+            p_fail = True; why.append("order-differs-from-the-specified-permutation")
         if k_fail or p_fail:
-            c["kind"] = "K" if k_fail else "P"; failures.append(c)
+            c["kind"] = "P" if p_fail else "K"; c["why"] = why or "model and implementation disagree"; failures.append(c)
     return {"evaluations": len(meta), "distinct_nontrivial": len(distinct),
             "rule": "generated dataclasses (1-4 fields, 0-2 serialized methods, order value/after/before/overriding) x 4 views (serialize, both schemas, GraphQL object type); "
                     "non-trivial = at least one order() or overriding; distinct by (view, fields, orders)",
@@ -144,7 +159,8 @@ def run(prop, seed, budget, ctx):
 
 def is_known(kid, case):
     """KF17: the model says `anchored = false`, the real code still matches the model, and what is lost is exactly that"""
-    return kid == "KF17" and case["kind"] == "P" and case.get("anchored") is False and case.get("model") == case["real"]
+    return kid == "KF17" and case["kind"] == "P" and case.get("anchored") is False and case.get("model") == case["real"] \
+        and case.get("why") == ["field-lost-or-duplicated"]
 
 def replay(prop, case, ctx):
     mod = build(case["class_src"], "replay")
